@@ -124,6 +124,9 @@ func childInit(args []string) ([]*Case, time.Duration, time.Duration, error) {
 	if len(args) > 6 {
 		lingerMs, _ = strconv.Atoi(args[6])
 	}
+	// a load that allocates without end dies of it (and is reported as a
+	// crash inside that load) instead of taking the machine with it
+	syscall.Setrlimit(syscall.RLIMIT_AS, &syscall.Rlimit{Cur: 16 << 30, Max: 16 << 30})
 	log.SetOutput(io.Discard)
 	casket.Quiet = true
 	// names that qualify for managed TLS make a real start ask the CA in the
@@ -214,6 +217,49 @@ func frameName(f string) string {
 	return f
 }
 
+var cpuAtProgress atomic.Int64
+
+// cpuMs is the processor time (user + system) this process has used so far.
+func cpuMs() int64 {
+	var ru syscall.Rusage
+	if syscall.Getrusage(syscall.RUSAGE_SELF, &ru) != nil {
+		return 0
+	}
+	return (ru.Utime.Sec+ru.Stime.Sec)*1000 + int64(ru.Utime.Usec+ru.Stime.Usec)/1000
+}
+
+// runningWorkerIn finds the worker goroutine running (not waiting for
+// anything) and returns the innermost casket frame below which it runs.
+func runningWorkerIn(dump string) string {
+	for _, g := range strings.Split(dump, "\n\n") {
+		if i := strings.Index(g, "goroutine "); i > 0 {
+			g = g[i:]
+		}
+		if !strings.HasPrefix(g, "goroutine ") {
+			continue
+		}
+		if !strings.Contains(g, "props/c11.loadValidate") && !strings.Contains(g, "props/c11.loadStart") {
+			continue
+		}
+		head := g
+		if i := strings.Index(g, "\n"); i > 0 {
+			head = g[:i]
+		}
+		if !strings.Contains(head, "[running") && !strings.Contains(head, "[runnable") {
+			continue
+		}
+		for _, l := range strings.Split(g, "\n") {
+			if strings.HasPrefix(l, "\t") {
+				continue
+			}
+			if m := casketFnRe.FindStringSubmatch(l); m != nil {
+				return frameName(m[1])
+			}
+		}
+	}
+	return ""
+}
+
 func watchdog(tPark, tMax time.Duration) {
 	last := progress.Load()
 	since := time.Now()
@@ -222,6 +268,7 @@ func watchdog(tPark, tMax time.Duration) {
 		time.Sleep(200 * time.Millisecond)
 		if p := progress.Load(); p != last {
 			last, since, parkedSeen, ioSeen = p, time.Now(), 0, 0
+			cpuAtProgress.Store(cpuMs())
 			continue
 		}
 		idle := time.Since(since)
@@ -248,7 +295,10 @@ func watchdog(tPark, tMax time.Duration) {
 			}
 		}
 		if why == "" && idle >= tMax {
-			why = "no-progress"
+			// how much processor time the load has used since it began: the
+			// deciding number for a load that computes without end (it does
+			// not depend on how busy the machine is)
+			why = fmt.Sprintf("no-progress cpu=%d", (cpuMs() - cpuAtProgress.Load()))
 		}
 		if why != "" {
 			outf("S %d %s\n", currentID.Load(), why)
